@@ -168,6 +168,22 @@ def execute(scenario):
                     break
             if ro != rb:
                 effective = True
+        if not violations:
+            # what the track record says *at the end of the episode* about entries stamped <= t must not depend on
+            # data stamped after t either (an entry that aliases live state changes after it was written)
+            trb = base.track_record()
+            for name, sim in (("A", simA),):
+                tro = sim.track_record()
+                for eb, eo in zip(trb, tro):
+                    tb_ = eb["time"].to_pydatetime() if hasattr(eb["time"], "to_pydatetime") else eb["time"]
+                    if tb_ > cut:
+                        break
+                    if canon(eb) != canon(eo):
+                        keys = [k_ for k_ in eb if canon(eb[k_]) != canon(eo.get(k_))]
+                        violate("prefix_depends_on_future", "variant {}: the track-record entry stamped {} (<= {}) read at the end of the episode differs in {}".format(
+                            name, eb["time"], scenario["cut"], keys), variant=name, kind="track_record_entry", field=keys[0] if keys else "?")
+                        break
+                    probe("final_track_record_entry_compared")
         if not violations and following is not None and following.get("exc") is None:
             # the trades executed in the following step depend on nothing stamped after t + latency (variant B)
             def exec_of(sim, call):
